@@ -102,7 +102,7 @@ def entry_name(e):
     return ("/" + "/".join(n[1:])) if n and n[0] == "/" else "/".join(n)
 
 
-def build_archive(entries, root):
+def build_archive(entries, root, split=None):
     """real archive for a list of {name:[comps], kind, tgt:[comps]}; absolute link targets are re-rooted at the scratch root"""
     from .refcodec import write_archive
 
@@ -131,8 +131,13 @@ def build_archive(entries, root):
                     ("dir", "nounix"): 0x10, ("dir", "unixonly"): 0x8000 | (0o040755 << 16), ("dir", "reparse"): 0x10 | 0x400 | 0x8000 | (0o040755 << 16)}.get((kind, av))
             if word is not None:
                 files[-1]["attrib"] = word
-    raw, _ = write_archive({"files": files, "folders": [{"nfiles": sum(1 for f in files if f.get("data")), "coders": [{"id": "copy"}], "crc": "substream"}]
-                            if any(f.get("data") for f in files) else None})
+    ndata = sum(1 for f in files if f.get("data"))
+    if split and 0 < split < ndata:
+        # two folders: the first 'split' members with data in one, the rest in another (opened by name, each folder has a worker of its own)
+        folders = [{"nfiles": split, "coders": [{"id": "copy"}], "crc": "substream"}, {"nfiles": ndata - split, "coders": [{"id": "copy"}], "crc": "substream"}]
+    else:
+        folders = [{"nfiles": ndata, "coders": [{"id": "copy"}], "crc": "substream"}] if ndata else None
+    raw, _ = write_archive({"files": files, "folders": folders})
     return raw
 
 
@@ -153,13 +158,43 @@ def run_extraction(case):
         os.makedirs(os.path.dirname(p), exist_ok=True)
         with open(p, "w") as f:
             f.write("old")
-    raw = build_archive(case["entries"], root)
+    raw = build_archive(case["entries"], root, case.get("split"))
     arc = os.path.join(root, "arc.7z")
     with open(arc, "wb") as f:
         f.write(raw)
     before = snapshot(root, J)
     rec = recorder()
     rec.events = []
+    unpatch = None
+    if case.get("race"):
+        # a forced interleaving of the folder workers: the worker that has just CHECKED the directory named in case["race"] is held
+        # until another worker has created a link (or for a moment, if none does), and only then goes on to create and write
+        import threading
+        import time as _time
+        import py7zr.py7zr as P
+
+        made = threading.Event()
+        watch = os.path.join(J, *case["race"])
+        orig_check, orig_symlink = P.check_resolved_inside, os.symlink
+        held = {"n": 0}
+
+        def symlink(src, dst, *a, **kw):
+            r = orig_symlink(src, dst, *a, **kw)
+            made.set()
+            return r
+
+        def check(directory, base_):
+            r = orig_check(directory, base_)
+            if os.path.normpath(str(directory)) == os.path.normpath(watch) and held["n"] == 0:
+                held["n"] += 1
+                made.wait(1.5)
+                _time.sleep(0.05)
+            return r
+
+        P.check_resolved_inside, os.symlink = check, symlink
+
+        def unpatch():
+            P.check_resolved_inside, os.symlink = orig_check, orig_symlink
     raised = ""
     cwd = os.getcwd()
     try:
@@ -207,6 +242,8 @@ def run_extraction(case):
                     pass
     finally:
         os.chdir(cwd)
+        if unpatch:
+            unpatch()
     after = snapshot(root, J)
     diffs = sorted(set(k for k in set(before) | set(after) if before.get(k) != after.get(k)) - {"arc.7z"})
     effects = []
